@@ -41,6 +41,14 @@ def run(ctx):
         hist = [h for h in hist if any(s['act']['op'] in ('AddDerived', 'Remove', 'UpdateId', 'UpdateFrom') for s in h['steps'])]
         ctx.check_ops(gcfg, hist, ['AddDerived', 'Remove', 'UpdateId'])
         c17.replay_items(ctx, hist, 'graph ' + gcfg + ' (derived/remove/update_id histories)')
+        # the dependency sub-protocol, deeper: define derived attributes in any order, reorder, remove
+        dcfg = 'GEN_DataStruct_deps.cfg'
+        res, g = tlc.dump_graph(wd, 'MC_DataStruct.tla', dcfg, timeout=3000)
+        ctx.add_tlc('E1 generation ' + dcfg, res, dcfg)
+        hist = c17.items_of([[g.state(n) for n in p] for p in g.behaviours()])
+        hist = [h for h in hist if any(s['act']['op'] == 'Remove' for s in h['steps']) and any(s['act']['op'] == 'AddDerived' for s in h['steps'])]
+        ctx.check_ops(dcfg, hist, ['AddDerived', 'Remove', 'Reorder', 'AddMain'])
+        c17.replay_items(ctx, hist, 'graph ' + dcfg + ' (dependency sub-protocol)')
     ctx.cov['exhaustive'] = not quick
     ctx.cov['rule'] = ('every expression tree of depth <= 2 (quick: all depth-1 trees and every third depth-2 tree) x 3 ways of '
                        'defining the attribute x 6 views; non-trivial = trees with at least one operator; plus every Data mutation '
